@@ -30,7 +30,14 @@ fn spawn_child(run: &DetRun, dump: bool) -> Result<(Digests, Digests), String> {
     if !std::path::Path::new(&shim).exists() {
         return Err(format!("HARNESS: shim missing at {shim}"));
     }
-    let mut cmd = Command::new(exe);
+    // address-space randomisation off: the child's addresses are a function of `run.layout`
+    let mut cmd = if std::path::Path::new("/usr/bin/setarch").exists() {
+        let mut c = Command::new("/usr/bin/setarch");
+        c.arg(std::env::consts::ARCH).arg("-R").arg(exe);
+        c
+    } else {
+        Command::new(exe)
+    };
     cmd.arg("child");
     if dump {
         cmd.arg("--dump");
@@ -55,6 +62,9 @@ fn spawn_child(run: &DetRun, dump: bool) -> Result<(Digests, Digests), String> {
             }
         }
         _ => {}
+    }
+    if run.layout != 0 {
+        cmd.env("VERIF_LAYOUT_PAD", "y".repeat((run.layout % 2048) as usize));
     }
     let mut ch = cmd.spawn().map_err(|e| format!("HARNESS: spawn: {e}"))?;
     ch.stdin
@@ -141,6 +151,7 @@ impl Judge {
         };
         self.probe_orders.insert(a.probe_order.clone());
         res.counters.insert("history_items".into(), run.history.len() as u64);
+        res.counters.insert("runs_with_perturbed_address_space_layout".into(), (run.layout != 0) as u64);
         res.counters.insert(
             "history_starts_with_front_end_only_entry".into(),
             run.history.first().map(|h| matches!(h.entry, detsim::Entry::Ast | detsim::Entry::Bare) as u64).unwrap_or(0),
@@ -230,6 +241,12 @@ fn shrink(run: &DetRun) -> (DetRun, u64) {
     try_it(c, &mut best, &mut steps, &mut j);
     let mut c = best.clone();
     c.placement = Placement::Main;
+    try_it(c, &mut best, &mut steps, &mut j);
+    let mut c = best.clone();
+    c.layout = 0;
+    try_it(c, &mut best, &mut steps, &mut j);
+    let mut c = best.clone();
+    c.proc_env = 0;
     try_it(c, &mut best, &mut steps, &mut j);
     let mut k = 0;
     while k < best.history.len() {
@@ -333,8 +350,24 @@ fn main() {
                 placement: Placement::Main,
                 samples: 2,
                 proc_env: 0,
+                layout: 0,
             };
             let o = |h: u64| spawn_child(&mk(h), false).map(|(a, _)| a.probe_order);
+            // the layout seam must bite too: the same layout value gives the same heap address in
+            // two processes (randomisation is off), another value gives another address
+            let addr = |l: u64| {
+                let mut r = mk(1);
+                r.layout = l;
+                spawn_child(&r, false).map(|(a, _)| a.d.get("info_probe_addr").cloned().unwrap_or_default())
+            };
+            let layout_ok = match (addr(0), addr(0), addr(7), addr(7), addr(8)) {
+                (Ok(a), Ok(b), Ok(c), Ok(d), Ok(e)) => a == b && c == d && (a != c || a != e) && !a.is_empty(),
+                _ => false,
+            };
+            if !layout_ok {
+                emit(json!({"ev":"selfcheck","ok":false,"report":["address-space layout is not a function of DetRun.layout (setarch -R unavailable?)"]}));
+                std::process::exit(2);
+            }
             match (o(1), o(1), o(2), o(3)) {
                 (Ok(a), Ok(b), Ok(c), Ok(d)) if a == b && (a != c || a != d) => emit(json!({"ev":"selfcheck","ok":true})),
                 other => {
